@@ -4,8 +4,26 @@ use roxmltree::Node;
 use std::fmt::Display;
 use std::str::FromStr;
 
+/// Namespace of all standard E57 XML elements.
+pub const E57_NAMESPACE_URL: &str = "http://www.astm.org/COMMIT/E57/2010-e57-v1.0";
+
+/// Namespace-aware check for the tag names of standard E57 elements.
+pub trait E57Tag {
+    /// Returns true for elements with the given name that belong to the E57 namespace.
+    /// Elements without any namespace are accepted as well to stay compatible with sloppy files.
+    /// Elements from foreign namespaces (extensions) never match, even if they use the same name.
+    fn is_e57_tag(&self, name: &str) -> bool;
+}
+
+impl E57Tag for Node<'_, '_> {
+    fn is_e57_tag(&self, name: &str) -> bool {
+        let tag = self.tag_name();
+        tag.name() == name && matches!(tag.namespace(), None | Some(E57_NAMESPACE_URL))
+    }
+}
+
 pub fn opt_string(parent_node: &Node, tag_name: &str) -> Result<Option<String>> {
-    if let Some(tag) = parent_node.children().find(|n| n.has_tag_name(tag_name)) {
+    if let Some(tag) = parent_node.children().find(|n| n.is_e57_tag(tag_name)) {
         let expected_type = "String";
         if let Some(found_type) = tag.attribute("type") {
             if found_type != expected_type {
@@ -33,7 +51,7 @@ fn opt_num<T: FromStr + Sync + Send>(
     tag_name: &str,
     expected_type: &str,
 ) -> Result<Option<T>> {
-    if let Some(tag) = parent_node.children().find(|n| n.has_tag_name(tag_name)) {
+    if let Some(tag) = parent_node.children().find(|n| n.is_e57_tag(tag_name)) {
         if let Some(found_type) = tag.attribute("type") {
             if found_type != expected_type {
                 Error::invalid(format!(
@@ -75,7 +93,7 @@ pub fn req_int<T: FromStr + Send + Sync>(parent_node: &Node, tag_name: &str) -> 
 }
 
 pub fn opt_date_time(parent_node: &Node, tag_name: &str) -> Result<Option<DateTime>> {
-    if let Some(tag) = parent_node.children().find(|n| n.has_tag_name(tag_name)) {
+    if let Some(tag) = parent_node.children().find(|n| n.is_e57_tag(tag_name)) {
         let expected_type = "Structure";
         if let Some(found_type) = tag.attribute("type") {
             if found_type != expected_type {
@@ -93,7 +111,7 @@ pub fn opt_date_time(parent_node: &Node, tag_name: &str) -> Result<Option<DateTi
 }
 
 pub fn opt_transform(parent_node: &Node, tag_name: &str) -> Result<Option<Transform>> {
-    let node = parent_node.children().find(|n| n.has_tag_name(tag_name));
+    let node = parent_node.children().find(|n| n.is_e57_tag(tag_name));
     if let Some(node) = node {
         Ok(Some(Transform::from_node(&node)?))
     } else {
